@@ -107,6 +107,10 @@ pub struct Search {
 
 pub trait Item: Serialize + DeserializeOwned + fmt::Display + FromStr + Clone {
     const KIND: &'static str;
+    /// text of the value used by re-entrant operations when it is unrelated to the outer value
+    const NESTED_TEXT: &'static str;
+    /// text of a sibling of the value whose printed form is `printed`
+    fn nested_sibling_text(printed: &str) -> String;
     fn identical(a: &Self, b: &Self) -> bool;
     fn diff(a: &Self, b: &Self) -> String;
     /// `y` was obtained by re-reading the printed form `printed` of `x`.  `strict`: `x` came
@@ -117,6 +121,10 @@ pub trait Item: Serialize + DeserializeOwned + fmt::Display + FromStr + Clone {
 
 impl Item for Version {
     const KIND: &'static str = "version";
+    const NESTED_TEXT: &'static str = "9.8.7-nested.1+n.2";
+    fn nested_sibling_text(printed: &str) -> String {
+        format!("{}+nested.7", printed.split('+').next().unwrap_or(printed))
+    }
     fn identical(a: &Self, b: &Self) -> bool {
         version_identical(a, b)
     }
@@ -134,6 +142,10 @@ impl Item for Version {
 
 impl Item for Range {
     const KIND: &'static str = "range";
+    const NESTED_TEXT: &'static str = ">=9.8.7-nested.1 <10.0.0||11.x||<0.0.1+n";
+    fn nested_sibling_text(printed: &str) -> String {
+        printed.to_string()
+    }
     fn identical(a: &Self, b: &Self) -> bool {
         range_identical(a, b)
     }
@@ -343,6 +355,8 @@ struct ReadResult<T> {
     /// what the reader saw before a premature EOF, if one was delivered
     eof_prefix: Option<Vec<u8>>,
     hard_error: bool,
+    nested_errors: Vec<String>,
+    reentered: usize,
 }
 
 fn run_delivery<T: Item>(
@@ -350,6 +364,7 @@ fn run_delivery<T: Item>(
     data: &[u8],
     rp: &ReadPlan,
     search: Option<(Rng, &FaultCfg)>,
+    nested: Nested<'_>,
     stats: &mut Stats,
 ) -> ReadResult<T> {
     let e2s = |e: &dyn fmt::Display| e.to_string();
@@ -371,6 +386,8 @@ fn run_delivery<T: Item>(
         data_len: data.len(),
         eof_prefix: None,
         hard_error: false,
+        nested_errors: Vec::new(),
+        reentered: 0,
     };
     stats.inc(match rp.delivery {
         Delivery::Reader => C::dl_reader,
@@ -399,6 +416,7 @@ fn run_delivery<T: Item>(
                 None => (None, FaultCfg::none()),
             };
             let mut reader = SimReader::new(bytes, rp.sched.clone(), rng, cfg, stats);
+            reader.nested = nested;
             let res = guarded(|| match rp.delivery {
                 Delivery::BufReader(cap) => {
                     let br = io::BufReader::with_capacity(cap.max(1), &mut reader);
@@ -408,6 +426,8 @@ fn run_delivery<T: Item>(
             });
             out.terminal_at = reader.terminal_at;
             out.hard_error = reader.hard_delivered;
+            out.nested_errors = std::mem::take(&mut reader.nested_errors);
+            out.reentered = reader.reentered;
             if let (Some(at), false) = (reader.terminal_at, reader.hard_delivered) {
                 out.eof_prefix = Some(bytes[..at].to_vec());
             }
@@ -777,11 +797,55 @@ where
     let first_printed = printed.first().cloned();
     let fp = first_printed.as_deref();
 
+    // ---- the value and operations used when a stub decides to re-enter the crate ------------------
+    let nested: Option<(T, String, String)> = {
+        let text = match (plan.knobs.nested_sibling, &first_printed) {
+            (true, Some(p)) => T::nested_sibling_text(p),
+            _ => T::NESTED_TEXT.to_string(),
+        };
+        guarded(|| text.parse::<T>().ok())
+            .ok()
+            .flatten()
+            .and_then(|n| guarded(|| n.to_string()).ok().map(|s| (n, s)))
+            .map(|(n, s)| {
+                let j = serde_json::to_string(&s).unwrap();
+                (n, s, j)
+            })
+    };
+    let nested_print = || -> Option<String> {
+        let (n, ns, _) = nested.as_ref()?;
+        match guarded(|| n.to_string()) {
+            Ok(s) if s == *ns => None,
+            Ok(s) => Some(format!("re-entrant to_string() of {:?} gave {:?}", ns, s)),
+            Err(p) => Some(format!("re-entrant to_string() of {:?} panicked: {}", ns, p)),
+        }
+    };
+    let nested_ser = || -> Option<String> {
+        let (n, ns, nj) = nested.as_ref()?;
+        match guarded(|| serde_json::to_string(n)) {
+            Ok(Ok(j)) if j == *nj => None,
+            Ok(Ok(j)) => Some(format!("re-entrant serde_json::to_string of {:?} gave {}", ns, j)),
+            Ok(Err(e)) => Some(format!("re-entrant serde_json::to_string of {:?} failed: {}", ns, e)),
+            Err(p) => Some(format!("re-entrant serde_json::to_string of {:?} panicked: {}", ns, p)),
+        }
+    };
+    let nested_de = || -> Option<String> {
+        let (n, ns, nj) = nested.as_ref()?;
+        match guarded(|| serde_json::from_str::<T>(nj).map(|z| T::identical(&z, n))) {
+            Ok(Ok(true)) => None,
+            Ok(Ok(false)) => Some(format!("re-entrant from_str of {} gave a different value than parsing {:?}", nj, ns)),
+            Ok(Err(e)) => Some(format!("re-entrant from_str of {} failed: {}", nj, e)),
+            Err(p) => Some(format!("re-entrant from_str of {} panicked: {}", nj, p)),
+        }
+    };
+
     // ---- P: printing into a failing formatter sink -----------------------------------------------
     let mut fmt_faults = 0usize;
+    let mut reentered = 0usize;
     let mut counts = Counts::default();
     {
         let mut sink = SimFmtSink::new(plan.fmt_sched.clone(), rng_fmt.take(), cfg.clone(), stats);
+        sink.nested = Some(&nested_print);
         let shape = plan.knobs.fmt_shape;
         let mut expected = String::new();
         for s in &printed {
@@ -811,6 +875,10 @@ where
             Ok::<(), fmt::Error>(())
         });
         fmt_faults = sink.failed;
+        reentered += sink.reentered;
+        for e in sink.nested_errors.drain(..) {
+            viols.push(viol("N1-reentrant-print-wrong", e, nested.as_ref().map(|n| n.1.as_str())));
+        }
         counts.fmt_calls = sink.calls;
         match res {
             Err(p) => viols.push(viol(
@@ -912,7 +980,7 @@ where
         shim_calls: usize,
     }
     let wout: WOut = {
-        let mut sw = SimWriter { disk: &mut disk, ctl: &mut wctl, stats: &mut *stats };
+        let mut sw = SimWriter { disk: &mut disk, ctl: &mut wctl, stats: &mut *stats, nested: Some(&nested_ser) };
         let pretty = plan.knobs.pretty;
         let item_refs: Vec<&T> = rec.items().iter().map(|b| &b.item).collect();
         let recser = Wire(shape, &item_refs);
@@ -1066,6 +1134,10 @@ where
     effective.flush_sched = std::mem::take(&mut wctl.flush_src.made);
     trim_default(&mut effective.flush_sched, |d| *d == FlushDec::Ok);
     let write_faults = wctl.faults_delivered;
+    reentered += wctl.reentered;
+    for e in wctl.nested_errors.drain(..) {
+        viols.push(viol("N2-reentrant-serialize-wrong", e, nested.as_ref().map(|n| n.1.as_str())));
+    }
     counts.write_lens = std::mem::take(&mut wctl.lens);
     counts.flush_calls = wctl.flush_calls;
     counts.record_len = j.len();
@@ -1112,6 +1184,7 @@ where
         shape,
         &data,
         &ReadPlan { delivery: Delivery::Str, sched: vec![] },
+        None,
         None,
         stats,
     );
@@ -1293,7 +1366,11 @@ where
             _ => None,
         };
         stats.inc(C::reads_total);
-        let rr = run_delivery::<T>(shape, &data, rp, s, stats);
+        let mut rr = run_delivery::<T>(shape, &data, rp, s, Some(&nested_de), stats);
+        reentered += rr.reentered;
+        for e in rr.nested_errors.drain(..) {
+            viols.push(viol("N3-reentrant-deserialize-wrong", e, nested.as_ref().map(|n| n.1.as_str())));
+        }
         read_faults_total += rr.read_faults;
         log.u64(rr.log);
         let name = rp.delivery.name();
@@ -1373,7 +1450,7 @@ where
     }
 
     // ---- bookkeeping -------------------------------------------------------------------------------
-    let any_fault = fmt_faults + write_faults + read_faults_total > 0 || flipped;
+    let any_fault = fmt_faults + write_faults + read_faults_total + reentered > 0 || flipped;
     if any_fault {
         stats.inc(C::runs_with_fault_delivered);
     } else {
@@ -1381,6 +1458,7 @@ where
     }
     let nontrivial = (write_faults > 0 && wout.shim_calls > 0)
         || fmt_faults > 0
+        || reentered > 0
         || (read_faults_total > 0 && !data.is_empty())
         || flipped;
     let mut key = Fnv::default();
@@ -1404,7 +1482,7 @@ where
         "surviving_bytes": String::from_utf8_lossy(&data),
         "flips": effective.flips,
         "reads": effective.reads,
-        "faults_delivered": { "fmt": fmt_faults, "write": write_faults, "read": read_faults_total },
+        "faults_delivered": { "fmt": fmt_faults, "write": write_faults, "read": read_faults_total, "reentrant_operations": reentered },
     });
     Outcome {
         effective,
